@@ -158,7 +158,7 @@ func init() {
 			{Name: "concurrent-porcupine", N: core.TierN(2000, 120000), Batch: 50, Run: c13Concurrent},
 			{Name: "seq-exhaustive", N: core.TierN(5, 25), Batch: 1, Run: c13Seq},
 			{Name: "close-race", N: core.TierN(48, 1920), Batch: 3, Run: c13CloseRace},
-			{Name: "commit-vs-close", N: core.TierN(40, 1600), Batch: 4, Run: c13CommitVsClose},
+			{Name: "commit-vs-close", N: core.TierN(40, 400), Batch: 4, Run: c13CommitVsClose},
 		},
 	})
 }
@@ -667,7 +667,7 @@ var _ = sync.Mutex{}
 func c13CommitVsClose(c *core.Ctx) {
 	trials := 60
 	if c.Thorough() {
-		trials = 150
+		trials = 80
 	}
 	hits := 0
 	for t := 0; t < trials && !c.Violated(); t++ {
